@@ -32,6 +32,9 @@ class WFQ(Scheduler):
         self.last_time: SimTime = 0.0
         """Clock time of most recent put and send operation"""
         self.store = PriorityStore(env)
+        self.arrivals: int = 0
+        """Number of packets received so far; last component of the store key,
+        so that equal stamps at one instant leave in arrival order"""
 
         self.action = env.process(self.run(env))
 
@@ -86,4 +89,9 @@ class WFQ(Scheduler):
             f"finish_time {self.finish_times[class_id]}"
         )
 
-        self.store.put(PriorityItem((self.finish_times[class_id], now), packet))
+        # the heap behind PriorityStore is not FIFO among equal keys: the arrival
+        # counter makes all keys distinct and orders equal stamps by arrival
+        self.arrivals += 1
+        self.store.put(
+            PriorityItem((self.finish_times[class_id], now, self.arrivals), packet)
+        )
